@@ -251,7 +251,16 @@ func runMsgTree(r *hx.R, n int, w *hx.W, _ []string) error {
 		x := (o + 1 + r.Pick(2)) % 3
 		rt := rates[r.Pick(len(rates))]
 		comm := func(op int) mnode { return mnode{kind: "comm", who: op, arg: rt} }
-		switch r.Pick(16) {
+		switch r.Pick(18) {
+		case 16, 17: // the staking (or Ethereum) message at the bottom of a deep tower of self-execs: any depth must be treated alike
+			inner := comm(o)
+			if r.Chance(1, 4) {
+				inner = mnode{kind: "eth"}
+			}
+			for d := r.Range(3, 10); d > 0; d-- {
+				inner = mnode{kind: "exec", who: o, inner: []mnode{inner}}
+			}
+			return []mnode{inner}
 		case 14: // a governance proposal that carries an Ethereum tx (its unauthenticated `from` names the gov account)
 			return []mnode{{kind: "proposal", who: o, inner: []mnode{{kind: "eth"}}}}
 		case 15:
